@@ -15,8 +15,8 @@ import (
 // (docxw.go, odtw.go) render it; the oracles (oracle.go) are computed from it.
 
 type inl struct {
-	Kind string // t, tab, br, pbr (page break, docx), sym (docx), s (odt spaces)
-	Tok  string // t: the token; sym: hex code; s: count
+	Kind string // t, tab, br, pbr (page break, docx), sym (docx), s (odt spaces), lit (literal text that is no token)
+	Tok  string // t: the token; sym: hex code; s: count; lit: the text
 }
 
 // lrun is a run (docx) / a span or direct text (odt).
@@ -56,6 +56,8 @@ type lpara struct {
 	// docx p: w:outlineLvl 9 written out in the paragraph's own w:pPr - "body text", no
 	// level (ECMA-376 17.3.1.20): the paragraph is a plain paragraph all the same.
 	Out9 bool
+	// docx h (render stream): the heading also carries numbering properties (w:numPr)
+	AlsoList bool
 }
 
 // bodyVias: the non-heading paragraph styles a document may use as its body style
@@ -98,6 +100,8 @@ type ltable struct {
 	// readers make of the attribute).
 	Undef bool
 	Wide  bool // a table 1024 grid columns wide / 1024 rows high (spans at the upper edge)
+	// odt: how the writer groups the rows / columns of the table (0 = not at all; see odtTable)
+	Groups int
 }
 
 type lblock struct {
@@ -120,6 +124,13 @@ type ldoc struct {
 	// paragraphs, some cell paragraphs and the headings made by a direct outline level are
 	// written in; "" = no such style.
 	Body      string
+	// render stream (genRenderDoc): NumSeed != 0 = the numbering part / the list styles are
+	// drawn from this seed instead of the fixed ones; Planted = how often a header / footer
+	// line was planted in the body on purpose (line -> count)
+	Render    bool
+	NumSeed   uint64
+	Planted   map[string]int
+	NoDraw    bool // fixed witness: the writers draw nothing of their own (no row / column grouping)
 	Grid      bool // drawn by genGridDoc: the subject is the table grid
 	Edge      bool // drawn by genEdgeDoc: numeric attributes at the edges of their range
 	ntok      int
@@ -796,6 +807,8 @@ func (p *lpara) wantText() string {
 			case "s":
 				n := int(it.Tok[0] - '0')
 				b.WriteString(strings.Repeat(" ", n))
+			case "lit":
+				b.WriteString(it.Tok)
 			}
 		}
 	}
